@@ -1,7 +1,7 @@
 #!/bin/bash
 # tools/try_seed.sh <seed-dir> [Cxx ...] — run checks against a seeded change in ISOLATION:
-# a scratch worktree of /repo with the patch applied next to a scratch copy of /verif (the harness
-# depends on ../../repo, so no manifest is edited). Default: every claimed check, quick tier.
+# a scratch worktree of /repo with the patch applied next to a scratch copy of /verif (the copy's
+# harness/Cargo.toml is pointed at the scratch worktree). Default: every claimed check, quick tier.
 # Prints, per check, exit code and the violation keys; appends to <seed-dir>/detect.txt.
 D=$(readlink -f "$1"); shift
 N=$(basename "$D")
@@ -11,6 +11,7 @@ git -C /repo worktree add --detach "$ROOT/repo" HEAD -q || exit 2
 ( cd "$ROOT/repo" && git apply "$D/patch.diff" ) || { echo "patch does not apply"; git -C /repo worktree remove --force "$ROOT/repo"; exit 2; }
 rsync -a --exclude harness/target --exclude .git --exclude evidence --exclude seeded /verif/ "$ROOT/verif/"
 mkdir -p "$ROOT/verif/evidence"
+sed -i "s|path = \"/repo\"|path = \"$ROOT/repo\"|" "$ROOT/verif/harness/Cargo.toml"
 PROPS="$@"; [ -n "$PROPS" ] || PROPS=$(python3 -c "import json;print(' '.join(c['property_id'] for c in json.load(open('/verif/MANIFEST.json'))['checks']))")
 export CARGO_TARGET_DIR=${MT_TARGET:-/tmp/mt/target} SMT_REPO="$ROOT/repo"
 {
